@@ -23,40 +23,40 @@ package activitypub
 //@ func (*NaturalLanguageValues).Set
 //@ requires (not (isnil n))
 //@ ensures (= result nil)
-//@ ensures (=> (exists (j) (and (<= 0 j) (< j (len (old (deref n)))) (= (field (at (old (deref n)) j) Ref) ref)))
+//@ ensures (=> (exists (j) (and (<= 0 j) (< j (len (old (deref n)))) (= (old (field (at (deref n) j) Ref)) ref)))
 //@             (and (= (len (deref n)) (len (old (deref n))))
 //@                  (forall (k) (=> (and (<= 0 k) (< k (len (deref n))))
-//@                     (and (= (field (at (deref n) k) Ref) (field (at (old (deref n)) k) Ref))
-//@                          (= (field (at (deref n) k) Value) (ite (= (field (at (old (deref n)) k) Ref) ref) v (field (at (old (deref n)) k) Value))))))))
-//@ ensures (=> (not (exists (j) (and (<= 0 j) (< j (len (old (deref n)))) (= (field (at (old (deref n)) j) Ref) ref))))
+//@                     (and (= (field (at (deref n) k) Ref) (old (field (at (deref n) k) Ref)))
+//@                          (= (field (at (deref n) k) Value) (ite (= (old (field (at (deref n) k) Ref)) ref) v (old (field (at (deref n) k) Value)))))))))
+//@ ensures (=> (not (exists (j) (and (<= 0 j) (< j (len (old (deref n)))) (= (old (field (at (deref n) j) Ref)) ref))))
 //@             (and (= (len (deref n)) (+ (len (old (deref n))) 1))
 //@                  (forall (k) (=> (and (<= 0 k) (< k (len (old (deref n)))))
-//@                     (and (= (field (at (deref n) k) Ref) (field (at (old (deref n)) k) Ref))
-//@                          (= (field (at (deref n) k) Value) (field (at (old (deref n)) k) Value)))))
+//@                     (and (= (field (at (deref n) k) Ref) (old (field (at (deref n) k) Ref)))
+//@                          (= (field (at (deref n) k) Value) (old (field (at (deref n) k) Value))))))
 //@                  (= (field (at (deref n) (len (old (deref n)))) Ref) ref)
 //@                  (= (field (at (deref n) (len (old (deref n)))) Value) v)))
 //@ loop 0
 //@   invariant (and (<= -1 rangeindex) (< rangeindex (len (old (deref n)))))
 //@   invariant (= (len (deref n)) (len (old (deref n))))
-//@   invariant (forall (k) (=> (and (<= 0 k) (< k (len (deref n)))) (= (field (at (deref n) k) Ref) (field (at (old (deref n)) k) Ref))))
-//@   invariant (forall (k) (=> (and (<= 0 k) (<= k rangeindex) (= (field (at (old (deref n)) k) Ref) ref)) (= (field (at (deref n) k) Value) v)))
-//@   invariant (forall (k) (=> (and (<= 0 k) (< k (len (deref n))) (or (> k rangeindex) (not (= (field (at (old (deref n)) k) Ref) ref)))) (= (field (at (deref n) k) Value) (field (at (old (deref n)) k) Value))))
-//@   invariant (= found (exists (k) (and (<= 0 k) (<= k rangeindex) (= (field (at (old (deref n)) k) Ref) ref))))
+//@   invariant (forall (k) (=> (and (<= 0 k) (< k (len (deref n)))) (= (field (at (deref n) k) Ref) (old (field (at (deref n) k) Ref)))))
+//@   invariant (forall (k) (=> (and (<= 0 k) (<= k rangeindex) (= (old (field (at (deref n) k) Ref)) ref)) (= (field (at (deref n) k) Value) v)))
+//@   invariant (forall (k) (=> (and (<= 0 k) (< k (len (deref n))) (or (> k rangeindex) (not (= (old (field (at (deref n) k) Ref)) ref)))) (= (field (at (deref n) k) Value) (old (field (at (deref n) k) Value)))))
+//@   invariant (= found (exists (k) (and (<= 0 k) (<= k rangeindex) (= (old (field (at (deref n) k) Ref)) ref))))
 
 //@ func (*NaturalLanguageValues).Append
 //@ requires (not (isnil n))
 //@ ensures (= (len (deref n)) (+ (len (old (deref n))) 1))
 //@ ensures (forall (k) (=> (and (<= 0 k) (< k (len (old (deref n)))))
-//@            (and (= (field (at (deref n) k) Ref) (field (at (old (deref n)) k) Ref))
-//@                 (= (field (at (deref n) k) Value) (field (at (old (deref n)) k) Value)))))
+//@            (and (= (field (at (deref n) k) Ref) (old (field (at (deref n) k) Ref)))
+//@                 (= (field (at (deref n) k) Value) (old (field (at (deref n) k) Value))))))
 //@ ensures (and (= (field (at (deref n) (len (old (deref n)))) Ref) lang) (= (field (at (deref n) (len (old (deref n)))) Value) value))
 
 //@ func (*NaturalLanguageValues).Add
 //@ requires (not (isnil n))
 //@ ensures (= (len (deref n)) (+ (len (old (deref n))) 1))
 //@ ensures (forall (k) (=> (and (<= 0 k) (< k (len (old (deref n)))))
-//@            (and (= (field (at (deref n) k) Ref) (field (at (old (deref n)) k) Ref))
-//@                 (= (field (at (deref n) k) Value) (field (at (old (deref n)) k) Value)))))
+//@            (and (= (field (at (deref n) k) Ref) (old (field (at (deref n) k) Ref)))
+//@                 (= (field (at (deref n) k) Value) (old (field (at (deref n) k) Value))))))
 //@ ensures (and (= (field (at (deref n) (len (old (deref n)))) Ref) (field ref Ref)) (= (field (at (deref n) (len (old (deref n)))) Value) (field ref Value)))
 
 //@ func (*NaturalLanguageValues).Count
